@@ -317,7 +317,11 @@ class Result:
     def finish(self, level="proof", checker_cmd="", extra_trusted=()):
         known = [k for k in load_known() if k["property"] == self.pid]
         real = []
+        seen_keys = set()
         for v in self.violations:
+            if v["key"] in seen_keys:
+                continue
+            seen_keys.add(v["key"])
             k = next((k for k in known if k["key"] == v["key"]), None)
             if k is not None and v["found_input"]:
                 self.known_hit.append((k, v))
